@@ -505,6 +505,9 @@ func runC08(c *core.Ctx, o Options) {
 	w.s.checkHandlersNeverCancel("W2", "the heartbeat goroutine leaves at its next wake-up although the session can be logged on again on the same connection, and never emits a Heartbeat again")
 	c.Explanation += " W2 premise: no registered message handler cancels the session context or stops the router on any path (the timers' goroutines end with the session, not with a message)."
 	c.Explanation += " W1 premise: SendBatch hands every element to DefaultHandler.send (retransmissions pass the refreshing handler too). W2 premise: no function of the library (session, handler, pools, bundled store) returns with a mutex it took still locked."
+	// W3 (premise): the initiator's timers are started by the EventLogon subscriber Run registered first — subscribers run in
+	// registration order
+	checkEventPoolOrder(c, "W3")
 	c.RuleMin = map[string]int{"W1": 12, "W2": 4, "W3": 3, "W4": 5}
 	c.MinObl = 10
 }
@@ -788,6 +791,14 @@ func runC09(c *core.Ctx, o Options) {
 	c.Explanation += " X4 premise: event subscribers run in registration order (utils.EventHandlerPool appends; Trigger walks front to back)."
 	c.Explanation += " X3 also: on the probe trace the change to WaitingTestReqAnswer precedes the send of the TestRequest. X1 converse: the timer the probe goroutine waits on is refreshed only by functions registered with HandleIncoming."
 	c.Explanation += " X3 also: no entry point other than the probe goroutine enters Disconnect with the state possibly SuccessfulLogged or WaitingTestReqAnswer. X4 also: Conn.Close holds no mutex when it closes the socket."
+	// X2 (premise): N is the number the peer wrote; X1 (premises): every inbound message reaches the handler (framing), the socket's
+	// read side is never armed with a deadline
+	checkCodecs(c, "X2", map[string]bool{"frombytes": true, "type:Int": true})
+	c.RulePrefix = "X5"
+	framingRules(c, libFuncs(c))
+	c.RulePrefix = ""
+	checkNoSocketOptionSurprises(c, "X4", libFuncs(c))
+	c.Explanation += " X2 premise: exact Int parser. X5 premise (= C04.F1–F3): the reader hands over every message whatever its size. X4 also: no read deadline is ever armed on the socket."
 	c.RuleMin = map[string]int{"M1": 3, "W4": 5, "X1": 11, "X2": 1, "X3": 4, "X4": 6}
 	c.MinObl = 14
 }
@@ -837,7 +848,13 @@ func checkCloseChain(c *core.Ctx, rule string) {
 		// a select state receiving from h.ctx.Done() whose branch returns
 		okDone, retOnDone := false, false
 		ps, _ := an.EnumPathsX(run, 512)
-		an.AllInstrs(run, func(in ssa.Instruction) {
+		var runBodies []*ssa.Function // Run and the steps cut out of it (a listen loop called once)
+		for f := range sameGoroutineReach(run) {
+			if f == run || !an.IsKnown(f) {
+				runBodies = append(runBodies, f)
+			}
+		}
+		forAllInstrs(runBodies, func(in ssa.Instruction) {
 			sel, ok := in.(*ssa.Select)
 			if !ok {
 				return
@@ -1272,4 +1289,10 @@ func closeBodies(fn *ssa.Function) []*ssa.Function {
 		}
 	}
 	return out
+}
+
+func forAllInstrs(fns []*ssa.Function, f func(ssa.Instruction)) {
+	for _, fn := range fns {
+		an.AllInstrs(fn, f)
+	}
 }
